@@ -51,6 +51,12 @@ def cases(seed, tier):
         out.append({"group": "extra", "kind": "twice", "seed": sub_seed(seed, "c06xts", i), "method": ["custom_exacteig", "davidson", "callable"][i % 3],
                     "n": rng.choice([4, 6]), "gap": rng.choice([1e-5, 3e-6, 1e-4]), "level": rng.choice([1.0, 100.0]), "npass": rng.choice([2, 3]),
                     "svd": i % 5 == 4})
+    # an operator with a DECOUPLED level (block-diagonal): A - e_i M is then singular EXACTLY in floating point (the direct backward solve takes
+    # its fallback branch) while another pair of levels is separated by a small gap (1e-3): tight tolerance
+    for i in range(24 if tier == "quick" else 240):
+        rng = random.Random(sub_seed(seed, "c06xd", i))
+        out.append({"group": "extra", "kind": "decoupled", "seed": sub_seed(seed, "c06xds", i), "method": ["custom_exacteig", "callable"][i % 2],
+                    "n": rng.choice([5, 6]), "neig": rng.choice([3, 4]), "mode": rng.choice(["lowest", "uppest"]), "gap": rng.choice([1e-3, 1e-2])})
     # one of the two operators has NO tensor parameter at all (its _getparamnames returns []): the other one's tensors still get their gradients
     for i in range(30 if tier == "quick" else 300):
         rng = random.Random(sub_seed(seed, "c06xn", i))
@@ -140,6 +146,60 @@ def _gen(n, tg, withM, maskA, maskM):
     return (d, e, u), m
 
 
+def run_decoupled(desc):
+    import xitorch
+    from xitorch.linalg import symeig
+    obs = Obs(desc)
+    tg = torch.Generator().manual_seed(desc["seed"])
+    n, neig, gap, method = desc["n"], desc["neig"], desc["gap"], desc["method"]
+    m = n - 1
+    q, _ = torch.linalg.qr(torch.randn(m, m, generator=tg, dtype=DT))
+    vals = torch.tensor([1.0, 1.0 + gap] + [2.5 + 1.3 * k for k in range(m - 2)], dtype=DT)
+    K = ((q * vals) @ q.T).clone().requires_grad_()          # the coupled block (leaf)
+    lone = torch.tensor(1.7 if desc["mode"] == "lowest" else 3.1, dtype=DT, requires_grad=True)      # the decoupled level
+
+    def full(Kt, lt):
+        A = torch.zeros(n, n, dtype=DT)
+        A = A + torch.nn.functional.pad(0.5 * (Kt + Kt.T), (0, 1, 0, 1))
+        e = torch.zeros(n, n, dtype=DT)
+        e[n - 1, n - 1] = 1.0
+        return A + lt * e
+    if method == "callable":
+        import xitorch._impls.linalg.symeig as implmod
+
+        def marg(A, neig, mode, M=None, **unused):
+            return implmod.exacteig(A, neig, mode, M)
+    else:
+        marg = method
+    mech = "decoupled:%s:%s" % (method, desc["mode"])
+    W = torch.randn(neig, n, n, generator=tg, dtype=DT)
+    cvec = torch.randn(neig, generator=tg, dtype=DT)
+
+    def loss(ev, X):
+        return (cvec * ev).sum() + sum((W[i] * torch.outer(X[:, i], X[:, i])).sum() for i in range(neig))
+    try:
+        with WarnLog():
+            ev, X = symeig(xitorch.LinearOperator.m(full(K, lone), is_hermitian=True), neig=neig, mode=desc["mode"], method=marg,
+                           bck_options={"method": "exactsolve", "degen_atol": 1e-9, "degen_rtol": 1e-9})
+            g = torch.autograd.grad(loss(ev, X), (K, lone))
+    except Exception as e:
+        obs.exc_violation("extra:call:" + mech, e)
+        obs.nontrivial = True
+        return obs.result()
+    K2, l2 = K.detach().clone().requires_grad_(), lone.detach().clone().requires_grad_()
+    er, Xr = torch.linalg.eigh(full(K2, l2))
+    idx = list(range(neig)) if desc["mode"] == "lowest" else list(range(n - neig, n))
+    gr = torch.autograd.grad(loss(er[idx], Xr[:, idx]), (K2, l2))
+    for nm, a, b in zip(("K", "lone"), g, gr):
+        err = float((a - b).abs().max())
+        sc = 1.0 + float(b.abs().max())
+        obs.check(err <= 1e-8 / gap * 1e-2 * sc, "extra:grad1:%s:%s" % (nm, mech),
+                  "gradient w.r.t. %s (decoupled level: the shifted matrix is exactly singular; gap %.0e elsewhere) differs from the dense reference by %.3e (scale %.2e)" % (nm, gap, err, sc))
+    obs.count("extra_decoupled_compared")
+    obs.nontrivial = True
+    return obs.result()
+
+
 def run_twice(desc):
     import xitorch
     from xitorch.linalg import symeig, svd
@@ -209,6 +269,8 @@ def run_twice(desc):
 def run_case(desc):
     if desc.get("kind") == "twice":
         return run_twice(desc)
+    if desc.get("kind") == "decoupled":
+        return run_decoupled(desc)
     from xitorch.linalg import symeig
     obs = Obs(desc)
     tg = torch.Generator().manual_seed(desc["seed"])
